@@ -103,15 +103,12 @@ theorem dataclasses_plain :
     `construct_from_json_file` pick the same opener. -/
 theorem codec_agrees (lower : Text → Text) (fname : Text) :
     writerTest.opener lower fname = readerTest.opener lower fname := by
-  unfold ExtTest.opener
-  rw [ext_tests_agree.1, contains_of_sameSet ext_tests_agree.2]
+  simp only [ExtTest.opener, ext_tests_agree.1, contains_of_sameSet ext_tests_agree.2]
 
 /-- … and it is gzip exactly when the lower-cased extension is `.gz` or `.gzip` -/
 theorem codec_by_extension (lower : Text → Text) (fname : Text) :
     writerTest.opener lower fname = .gzip ↔ Spec.C12.gzipExts.contains (lower (splitext fname).2) = true := by
-  unfold ExtTest.opener
-  rw [ext_tests_spec.1, contains_of_sameSet ext_tests_spec.2]
-  simp only [if_true]
+  simp only [ExtTest.opener, ext_tests_spec.1, contains_of_sameSet ext_tests_spec.2, if_true]
   split <;> simp_all
 
 example : writerTest.opener (·.map lowerChar) "out/My Model.V2.GZ".toList = .gzip := by decide
@@ -145,14 +142,14 @@ example :
     let cfg := { Cfg.current (fun _ => true) 64 with newargs := false }
     let number := "xlcalculator.xlfunctions.func_xltypes.Number".toList
     decode cfg (encode cfg (.slots number [.int 4])) = .dict [(tObject, .str number)] := by
-  decide
+  rfl
 
 /-- without the import fallback a class outside the allow-list is left as a raw dict -/
 example :
     let cfg := Cfg.current (fun _ => false) 64
     let node := "xlcalculator.ast_nodes.OperandNode".toList
     decode cfg (encode cfg (.obj node [])) = .dict [(tObject, .str node)] := by
-  decide
+  rfl
 
 /-! ## 4. `construct (persist m) = m` -/
 
@@ -184,7 +181,7 @@ theorem output_ok (m : PModel) :
     ∃ out, outputOf m Gen.C12.persistWrites = .ok out ∧ (∀ p ∈ out, p ∈ rootItems m) ∧
       assignAll out Gen.C12.readAssigns PModel.empty = .ok m := by
   refine ⟨_, rfl, ?_, ?_⟩
-  · simp [rootItems, PModel.attr, kCells, kDefinedNames, kFormulae, kRanges]
+  · simp [rootItems, kCells, kDefinedNames, kFormulae, kRanges]
   · cases m; rfl
 
 /-- **Restoring a persisted model** (guarded: see the note on D1201 below).  For the configuration the
@@ -219,5 +216,348 @@ theorem restore_partial (imp : Text → Bool) (d : Nat) (lower : Text → Text) 
     rw [ho]
     simp only [Except.map, hdepth, if_false]
   · simp only [construct, constructWith, read_own_file, roundtrip cfg hk _ henc, hassign, Except.map]
+
+/-- D1201, kernel-checked: a compiled formula whose AST is nested deeper than the encoder's allowance is
+    encodable, and still `persist_to_json_file` raises `RecursionError` (while the same model persists before
+    compilation). -/
+def deepAst : Nat → Py
+  | 0 => .none
+  | n + 1 => .obj "xlcalculator.ast_nodes.OperatorNode".toList [("left".toList, deepAst n)]
+
+def deepModel (ast : Py) : PModel :=
+  { PModel.empty with
+    cells := .dict [("Sheet1!B1".toList,
+      .obj clsCell [(fAddress, .str "Sheet1!B1".toList), (fValue, .none),
+                    (fFormula, .obj clsFormula [(fFormula, .str "=A1+A1+…".toList), (fAst, ast)])])] }
+
+example :
+    let cfg := Cfg.current (fun _ => true) 8
+    encF cfg (rootItems (deepModel (deepAst 10))) = true ∧
+    (persist cfg id (deepModel (deepAst 10)) "m.json".toList).toOption.isNone = true ∧
+    (persist cfg id (deepModel .none) "m.json".toList).toOption.isSome = true := by
+  decide
+
+/-! ## 5. What the restored model shows, and how it evaluates -/
+
+theorem observe_stripped (cfg : Cfg) (m : PModel) : observe (stripped cfg m) = observe m := by
+  unfold stripped; split
+  · rfl
+  · exact observe_clearAst m
+
+/-- the statement's observable as the reference semantics sees it -/
+def toSpec (o : Observable) :=
+  (⟨o.cells, o.formulae, o.names, o.ranges⟩ : Spec.C12.Obs _ _ _ _)
+
+/-- **Same cells, formulae, defined names and ranges.**  The restored model shows exactly what the original
+    shows: every cell key with its address, value and formula text, every entry of `formulae`, every defined
+    name with its kind and target, every range with its address matrix — in the same order — whether or not
+    `build_code` was asked for. -/
+theorem restore_observable_partial (imp : Text → Bool) (d : Nat) (lower : Text → Text)
+    (parse : Text → Names → Py) (m : PModel) (fname : Text) (bc : Bool)
+    (h : Persistable (Cfg.current imp d) m) :
+    ∃ f r, persist (Cfg.current imp d) lower m fname = .ok f ∧
+      construct (Cfg.current imp d) lower parse f fname bc = .ok r ∧
+      observe r = observe m ∧ Spec.C12.Equivalent (toSpec (observe m)) (toSpec (observe r)) := by
+  obtain ⟨f, hp, hc⟩ := restore_partial imp d lower parse m fname bc h
+  refine ⟨f, _, hp, hc, ?_, ?_⟩
+  · cases bc
+    · simp only [Bool.false_eq_true, if_false, observe_stripped]
+    · simp only [if_true, observe_buildCode, observe_stripped]
+  · have : observe (if bc then buildCode parse (stripped (Cfg.current imp d) m)
+        else stripped (Cfg.current imp d) m) = observe m := by
+      cases bc
+      · simp only [Bool.false_eq_true, if_false, observe_stripped]
+      · simp only [if_true, observe_buildCode, observe_stripped]
+    rw [this]
+    exact ⟨fun _ => rfl, fun _ => rfl, fun _ => rfl, fun _ => rfl⟩
+
+theorem buildCode_stripped (cfg : Cfg) (parse : Text → Names → Py) (m : PModel) (ht : Texted m = true) :
+    buildCode parse (stripped cfg m) = buildCode parse m := by
+  unfold stripped; split
+  · rfl
+  · exact buildCode_clearAst parse m ht
+
+/-- **After compilation the restored model is the compiled original** — whether the original was persisted
+    before or after its own compilation, after evaluations or after overwrites: with `build_code=True` the
+    reader returns `build_code` applied to the original (the parser being a function of formula text and
+    defined names).  `Texted`: every formula object carries its text. -/
+theorem restore_then_compile_partial (imp : Text → Bool) (d : Nat) (lower : Text → Text)
+    (parse : Text → Names → Py) (m : PModel) (fname : Text)
+    (h : Persistable (Cfg.current imp d) m) (ht : Texted m = true) :
+    ∃ f, persist (Cfg.current imp d) lower m fname = .ok f ∧
+      construct (Cfg.current imp d) lower parse f fname true = .ok (buildCode parse m) := by
+  obtain ⟨f, hp, hc⟩ := restore_partial imp d lower parse m fname true h
+  exact ⟨f, hp, by rw [hc]; simp only [if_true, buildCode_stripped _ parse m ht]⟩
+
+/-- a model that was compiled by the same parser comes back identical, ASTs included -/
+theorem restore_compiled_partial (imp : Text → Bool) (d : Nat) (lower : Text → Text)
+    (parse : Text → Names → Py) (m0 : PModel) (fname : Text)
+    (h : Persistable (Cfg.current imp d) (buildCode parse m0)) (ht : Texted (buildCode parse m0) = true) :
+    ∃ f, persist (Cfg.current imp d) lower (buildCode parse m0) fname = .ok f ∧
+      construct (Cfg.current imp d) lower parse f fname true = .ok (buildCode parse m0) := by
+  obtain ⟨f, hp, hc⟩ := restore_then_compile_partial imp d lower parse (buildCode parse m0) fname h ht
+  exact ⟨f, hp, by rw [hc, buildCode_idem]⟩
+
+/-- **Every cell evaluates to the same value**: for any evaluation `ev` that reads the compiled model, the
+    restored model and the compiled original agree on every cell (they are the same model).  That evaluation is
+    a function of the model state is what the type of `ev` says; the evaluator itself is not modelled here. -/
+theorem evaluates_same_partial {Val : Type} (ev : PModel → Text → Val) (imp : Text → Bool) (d : Nat)
+    (lower : Text → Text) (parse : Text → Names → Py) (m : PModel) (fname : Text)
+    (h : Persistable (Cfg.current imp d) m) (ht : Texted m = true) :
+    ∃ f r, persist (Cfg.current imp d) lower m fname = .ok f ∧
+      construct (Cfg.current imp d) lower parse f fname true = .ok r ∧
+      Spec.C12.EvaluatesSame ev (buildCode parse m) r := by
+  obtain ⟨f, hp, hc⟩ := restore_then_compile_partial imp d lower parse m fname h ht
+  exact ⟨f, _, hp, hc, fun _ => rfl⟩
+
+/-! ## 6. Reachability: the states the API produces are `Persistable` -/
+
+/-- the object graph of the model is encodable -/
+def Encodable (cfg : Cfg) (m : PModel) : Prop := encF cfg (rootItems m) = true
+/-- … and not nested deeper than the encoder manages -/
+def Shallow (cfg : Cfg) (m : PModel) : Prop := depthF (rootItems m) + 1 ≤ cfg.maxDepth
+
+theorem encodable_iff (cfg : Cfg) (m : PModel) : Encodable cfg m ↔ encModel cfg m = true := by
+  have h : isReserved kCells = false ∧ isReserved kDefinedNames = false ∧ isReserved kFormulae = false ∧
+      isReserved kRanges = false := by decide
+  simp only [Encodable, rootItems, encF, encModel, h.1, h.2.1, h.2.2.1, h.2.2.2, Bool.not_false,
+    Bool.true_and, Bool.and_true, Bool.and_assoc]
+
+theorem depth_withAst_none_le (c : Py) : depth (withAst .none c) ≤ depth c := by
+  unfold withAst
+  split
+  · rename_i cl fs
+    split
+    · rename_i fc ffs hl
+      have h1 := depth_le_of_lookup _ _ _ hl
+      have h2 := depthF_setField_le fFormula (.obj fc (setField fAst .none ffs)) fs
+      have h3 := depthF_setField_le fAst .none ffs
+      simp only [depth] at h1 h2 h3 ⊢
+      omega
+    · omega
+  · omega
+
+theorem shallow_mapCells (cfg : Cfg) (f : Py → Py) (n : Nat) (hn : n + 2 ≤ cfg.maxDepth)
+    (hf : ∀ c, depth c ≤ n → depth (f c) ≤ n) (m : PModel) (hc : depth m.cells ≤ n + 1)
+    (h : Shallow cfg m) : Shallow cfg (m.mapCells f) := by
+  obtain ⟨cells, dn, fo, ra⟩ := m
+  cases cells with
+  | dict kvs =>
+    simp only [depth] at hc
+    have := depthF_mapDict_le f n hf kvs (by omega)
+    simp only [Shallow, PModel.mapCells, rootItems, depthF, depth] at h ⊢
+    omega
+  | _ => exact h
+
+theorem shallow_clearAst (cfg : Cfg) (m : PModel) (h : Shallow cfg m) : Shallow cfg (clearAst m) := by
+  obtain ⟨cells, dn, fo, ra⟩ := m
+  cases cells with
+  | dict kvs =>
+    have : depthF (mapDict (withAst .none) kvs) ≤ depthF kvs :=
+      depthF_mapDict_le _ _ (fun c hc => Nat.le_trans (depth_withAst_none_le c) hc) kvs (Nat.le_refl _)
+    simp only [Shallow, clearAst, PModel.mapCells, rootItems, depthF, depth] at h ⊢
+    omega
+  | _ => exact h
+
+theorem encodable_clearAst (cfg : Cfg) (m : PModel) (h : Encodable cfg m) : Encodable cfg (clearAst m) :=
+  (encodable_iff cfg _).mpr
+    (encModel_mapCells cfg _ (fun c hc => enc_withAst cfg .none rfl c hc) m ((encodable_iff cfg m).mp h))
+
+/-- an encodable, shallow model is `Persistable` (whether or not the source strips the ASTs) -/
+theorem persistable_of (cfg : Cfg) (m : PModel) (he : Encodable cfg m) (hs : Shallow cfg m) :
+    Persistable cfg m := by
+  unfold Persistable stripped
+  split
+  · exact ⟨he, hs⟩
+  · exact ⟨encodable_clearAst cfg m he, shallow_clearAst cfg m hs⟩
+
+/-- `build_code` keeps a model encodable, provided the parser's trees are (their classes must be importable:
+    the AST node classes are not in the allow-list) -/
+theorem encodable_buildCode (cfg : Cfg) (parse : Text → Names → Py)
+    (hp : ∀ t n, enc cfg (parse t n) = true) (m : PModel) (h : Encodable cfg m) :
+    Encodable cfg (buildCode parse m) := by
+  rw [encodable_iff] at h ⊢
+  rw [buildCode_eq]
+  refine encModel_mapCells cfg _ (fun c hc => ?_) m h
+  unfold compileCell
+  split
+  · exact enc_withAst cfg _ (hp _ _) c hc
+  · exact hc
+
+theorem encF_foldl_setField (cfg : Cfg) : ∀ (sets : List (Text × Py)) (fs : List (Text × Py)),
+    encF cfg sets = true → encF cfg fs = true →
+      encF cfg (sets.foldl (fun acc (p : Text × Py) => setField p.1 p.2 acc) fs) = true
+  | [], _, _, h => h
+  | (k, v) :: r, fs, hs, h => by
+    simp only [encF, Bool.and_eq_true, Bool.not_eq_true'] at hs
+    exact encF_foldl_setField cfg r _ hs.2 (encF_setField cfg k v hs.1.1 hs.1.2 fs h)
+
+theorem encodable_storeAt (cfg : Cfg) (addr : Text) (sets : List (Text × Py)) (hs : encF cfg sets = true)
+    (m : PModel) (h : Encodable cfg m) : Encodable cfg (storeAt addr sets m) := by
+  rw [encodable_iff] at h ⊢
+  obtain ⟨cells, dn, fo, ra⟩ := m
+  cases cells with
+  | dict kvs =>
+    simp only [encModel, enc, Bool.and_eq_true] at h
+    simp only [storeAt, encModel, enc, Bool.and_eq_true]
+    refine ⟨⟨⟨?_, h.1.1.2⟩, h.1.2⟩, h.2⟩
+    have hk := h.1.1.1
+    clear h
+    induction kvs with
+    | nil => rfl
+    | cons p r ih =>
+      obtain ⟨k, c⟩ := p
+      simp only [encF, Bool.and_eq_true, Bool.not_eq_true'] at hk
+      simp only [List.map, encF, Bool.and_eq_true, Bool.not_eq_true']
+      refine ⟨⟨?_, ?_⟩, ih hk.2⟩
+      · split <;> exact hk.1.1
+      · split
+        · cases c with
+          | obj cl fs =>
+            have hc := hk.1.2
+            simp only [enc, Bool.and_eq_true] at hc ⊢
+            exact ⟨hc.1, encF_foldl_setField cfg sets fs hs hc.2⟩
+          | _ => exact hk.1.2
+        · exact hk.1.2
+  | _ => exact h
+
+/-- storing an evaluated value keeps the model encodable when the value is -/
+theorem encodable_storeEvaluated (cfg : Cfg) (addr : Text) (v : Py) (hv : enc cfg v = true) (m : PModel)
+    (h : Encodable cfg m) : Encodable cfg (storeEvaluated addr v m) := by
+  refine encodable_storeAt cfg addr _ ?_ m h
+  simp [encF, enc, hv, field_names_ok.2.2.1, field_names_ok.2.2.2.1]
+
+theorem encF_append (cfg : Cfg) : ∀ a b : List (Text × Py),
+    encF cfg a = true → encF cfg b = true → encF cfg (a ++ b) = true
+  | [], _, _, hb => hb
+  | (k, v) :: r, b, ha, hb => by
+    simp only [encF, Bool.and_eq_true] at ha
+    simp only [List.cons_append, encF, Bool.and_eq_true]
+    exact ⟨ha.1, encF_append cfg r b ha.2 hb⟩
+
+/-- `set_cell_value` keeps the model encodable when the new value (and, for a new address, the new cell
+    object) is, and the address is not a jsonpickle tag -/
+theorem encodable_setCellValue (cfg : Cfg) (addr : Text) (v fresh : Py) (ha : isReserved addr = false)
+    (hv : enc cfg v = true) (hf : enc cfg fresh = true) (m : PModel) (h : Encodable cfg m) :
+    Encodable cfg (setCellValue addr v fresh m) := by
+  obtain ⟨cells, dn, fo, ra⟩ := m
+  cases cells with
+  | dict kvs =>
+    simp only [setCellValue]
+    split
+    · refine encodable_storeAt cfg addr _ ?_ _ h
+      simp [encF, hv, field_names_ok.2.2.1]
+    · rw [encodable_iff] at h ⊢
+      simp only [encModel, enc, Bool.and_eq_true] at h ⊢
+      refine ⟨⟨⟨encF_append cfg kvs _ h.1.1.1 ?_, h.1.1.2⟩, h.1.2⟩, h.2⟩
+      simp [encF, ha, hf]
+  | _ => exact h
+
+/-- the restored model can be persisted again -/
+theorem restored_persistable_partial (imp : Text → Bool) (d : Nat) (m : PModel)
+    (h : Persistable (Cfg.current imp d) m) :
+    Persistable (Cfg.current imp d) (stripped (Cfg.current imp d) m) := by
+  generalize Cfg.current imp d = cfg at h ⊢
+  have hh : stripped cfg (stripped cfg m) = stripped cfg m ∨ cfg.persistsAst = false := by
+    unfold stripped; cases cfg.persistsAst <;> simp
+  unfold Persistable at h ⊢
+  cases hp : cfg.persistsAst with
+  | true => simp only [stripped, hp, if_true] at h ⊢; exact h
+  | false =>
+    simp only [stripped, hp, Bool.false_eq_true, if_false] at h ⊢
+    exact ⟨encodable_clearAst cfg _ h.1, shallow_clearAst cfg _ h.2⟩
+
+/-! ### the values a model holds -/
+
+/-- JSON-native values, and `datetime` (jsonpickle's own handler) -/
+def nativeVal : Py → Bool
+  | .none | .bool _ | .int _ | .float _ | .str _ => true
+  | .lib c _ => handled.contains c
+  | _ => false
+
+def nativeItems : List (Text × Py) → Bool
+  | [] => true
+  | (k, v) :: r => !isReserved k && nativeVal v && nativeItems r
+
+/-- what `Evaluator.evaluate` stores in a cell: a native value, an `ExcelType` instance
+    (Number, Text, Boolean, DateTime, Blank) around a native payload, or an `ExcelError` -/
+def evaluatedVal : Py → Bool
+  | .slots c [p] => Gen.C12.excelTypeClasses.contains c && nativeVal p
+  | .reduce c args st => Gen.C12.errorClasses.contains c && args.all nativeVal && nativeItems st
+  | v => nativeVal v
+
+/-- the reading process can import the value classes and jsonpickle's handler classes by name (they are not in
+    the allow-list) -/
+def ImportsValueClasses (imp : Text → Bool) : Prop :=
+  ∀ c, (Gen.C12.excelTypeClasses.contains c || Gen.C12.errorClasses.contains c || handled.contains c) = true →
+    imp c = true
+
+theorem enc_native (imp : Text → Bool) (d : Nat) (hi : ImportsValueClasses imp) (v : Py)
+    (h : nativeVal v = true) : enc (Cfg.current imp d) v = true := by
+  cases v <;> simp_all [nativeVal, enc, Cfg.resolvable, Cfg.current]
+  rename_i c p
+  exact Or.inr (hi c (by simp [h]))
+
+theorem encL_native (imp : Text → Bool) (d : Nat) (hi : ImportsValueClasses imp) :
+    ∀ l : List Py, l.all nativeVal = true → encL (Cfg.current imp d) l = true
+  | [], _ => rfl
+  | v :: r, h => by
+    simp only [List.all_cons, Bool.and_eq_true] at h
+    simp only [encL, enc_native imp d hi v h.1, encL_native imp d hi r h.2, Bool.and_self]
+
+theorem encF_native (imp : Text → Bool) (d : Nat) (hi : ImportsValueClasses imp) :
+    ∀ l : List (Text × Py), nativeItems l = true → encF (Cfg.current imp d) l = true
+  | [], _ => rfl
+  | (k, v) :: r, h => by
+    simp only [nativeItems, Bool.and_eq_true] at h
+    simp only [encF, h.1.1, enc_native imp d hi v h.1.2, encF_native imp d hi r h.2, Bool.and_self]
+
+/-- **Evaluated values survive** (D26 repaired): every value an evaluation stores is encodable under the
+    current source — this is where `newargs_cover_slots` is needed. -/
+theorem enc_evaluated (imp : Text → Bool) (d : Nat) (hi : ImportsValueClasses imp) (v : Py)
+    (h : evaluatedVal v = true) : enc (Cfg.current imp d) v = true := by
+  have hn := newargs_cover_slots imp d
+  cases v with
+  | slots c args =>
+    match args, h with
+    | [p], h =>
+      simp only [evaluatedVal, Bool.and_eq_true] at h
+      simp only [enc, encL, hn, enc_native imp d hi p h.2, Bool.and_true, Bool.true_and]
+      simp only [Cfg.resolvable, Cfg.current, Bool.or_eq_true]
+      exact Or.inr (hi c (by simp only [h.1, Bool.true_or]))
+    | [], h => simp [evaluatedVal, nativeVal] at h
+    | _ :: _ :: _, h => simp [evaluatedVal, nativeVal] at h
+  | reduce c args st =>
+    simp only [evaluatedVal, Bool.and_eq_true] at h
+    simp only [enc, encL_native imp d hi args h.1.2, encF_native imp d hi st h.2, Bool.and_true]
+    simp only [Cfg.resolvable, Cfg.current, Bool.or_eq_true]
+    exact Or.inr (hi c (by simp only [h.1.1, Bool.true_or, Bool.or_true]))
+  | _ => exact enc_native imp d hi _ (by simpa [evaluatedVal] using h)
+
+example : evaluatedVal (.slots "xlcalculator.xlfunctions.func_xltypes.Number".toList [.float (.fin (11/2))]) = true
+    ∧ evaluatedVal (.reduce "xlcalculator.xlfunctions.xlerrors.DivZeroExcelError".toList [.none]
+        [("value".toList, .str "#DIV/0!".toList), ("info".toList, .none)]) = true
+    ∧ ImportsValueClasses (fun _ => true) := by
+  refine ⟨by decide, by decide, fun _ _ => rfl⟩
+
+/-- an instance of one of the four dataclasses whose `__dict__` holds exactly the dataclass fields -/
+def mkInstance (row : Gen.C12.ClassRow) (vals : Text → Py) : Py :=
+  .obj row.qualname (row.fields.map fun f => (f.name, vals f.name))
+
+/-- **Freshly built objects survive, from the allow-list alone**: an instance of XLCell, XLFormula, XLRange
+    or f_token is encodable as soon as its attribute values are — whatever the reading process can import. -/
+theorem enc_mkInstance (imp : Text → Bool) (d : Nat) (row : Gen.C12.ClassRow)
+    (hrow : row ∈ Gen.C12.dataclasses) (vals : Text → Py)
+    (hv : ∀ f ∈ row.fields, enc (Cfg.current imp d) (vals f.name) = true) :
+    enc (Cfg.current imp d) (mkInstance row vals) = true := by
+  have h1 := dataclasses_resolvable imp d row hrow
+  have h2 := List.all_eq_true.mp dataclasses_plain row hrow
+  have h3 := List.all_eq_true.mp field_names_not_tags row hrow
+  simp only [mkInstance, enc, h1, Bool.true_and, Bool.and_eq_true]
+  refine ⟨by simpa [Cfg.current] using h2, ?_⟩
+  rw [encF_iff]
+  intro p hp
+  obtain ⟨f, hf, rfl⟩ := List.mem_map.mp hp
+  exact ⟨by simpa using List.all_eq_true.mp h3 f hf, hv f hf⟩
 
 end XlVerif.Props.C12
